@@ -1159,23 +1159,25 @@ MANIFEST_ENTRY = {
              'transform as its .data; unit DC gain and evenness of jitter/smear/pixel/OLPF; objects.slit_ft (1 at DC, 2 for crossed slits) and '
              'pinhole_ft (jinc 0) even; diffraction_limited_mtf with the real arccos / sqrt / abs / pi, for every frequency, '
              'wavelength and f-number: 1 at zero frequency, within [0, 1], even, 0 at and beyond the cut-off 1/(lambda/1000 F#) '
-             '(PARTIAL: non-increasing in |f| is checked on the real code only). On the m x n grid the proved sums equal, '
+             'and never increasing with |f| (clamp included); longexposure_otf with the real exp / real power: 1 at zero frequency, in '
+             '(0, 1], never increasing, for every Cn and non-negative z, f, lambda, h. On the m x n grid the proved sums equal, '
              'sample for sample, the executable model double sums and roll index maps (bridge theorems). TRANSLATED each run (every '
              'statement of apply_transfer_functions must be recognised, else the item is reported as TIE-DEGRADED): conv, '
              'apply_transfer_functions (both conventions, loop step, `tf = tf(**kwargs)`, return leg), forward_ft_unit, the grid '
              'call site (axis, shift), transform_psf incl. the container branch, mtf/ptf/otf, the reference index, analytic '
              'transfer functions (jitter, smear, pixel, OLPF, slit_ft, pinhole_ft), _difflim_mtf_core and diffraction_limited_mtf '
-             '(extinction, normalised frequency, array and scalar clamp). RECOGNISER FACTS only (no Lean content): polar grids from cartesian, keyword table. MODELLED AND '
+             '(extinction, normalised frequency, array and scalar clamp), longexposure_otf (unit conversions, exponent 5/3), komogorov, '
+             'estimate_Cn. RECOGNISER FACTS only (no Lean content): polar grids from cartesian, keyword table. MODELLED AND '
              'COMPARED (the driver runs the HAND model; the generated terms are tied to it by the gen_* theorems): pipelines with '
              'an O(N^2) DFT on doubles and direct sums vs prysm on all shapes up to the tier bound, impulses at every position, TF '
              'lists as real/complex arrays, as callables (sign-changing, complex, scalar-returning, zero-parameter, positionally '
              'curried slit_ft with None widths, pinhole_ft through jinc; kinds dealt from a deck so each runs every time) on built and on '
              'caller-supplied grids, mixed array/callable lists; predicates only on large/prime shapes (to 128x128), float32 / '
              'integer / Fortran / strided inputs, RichData and duck-typed containers, repeated calls (no aliasing); '
-             'diffraction_limited_mtf vs the model formula at / around / beyond the cut-off, scalar and frequencies=None paths.'),
+             'diffraction_limited_mtf vs the model formula at / around / beyond the cut-off, scalar and frequencies=None paths; '
+             'longexposure_otf / komogorov / estimate_Cn vs the model formulas.'),
     'note': ('Trusted: scipy.fft computes the DFT sum (the contract the theorems assume, proved satisfiable); fftshift/ifftshift '
              'and fftfreq semantics (compared with the model index maps every run); floating point (1e-9 relative; float32 2e-4). '
-             'Not covered: rounding error growth; the rasterisers of prysm.objects (slit, pinhole, siemensstar, ...); the atmospheric '
-             'OTF formulas; the '
+             'Not covered: rounding error growth; the rasterisers of prysm.objects (slit, pinhole, siemensstar, ...); the '
              'frequency spacing reported by the returned RichData for non-square PSFs (single dx from axis 0).'),
 }
